@@ -72,6 +72,10 @@ type jsonlineDecoder struct {
 }
 
 func (d *jsonlineDecoder) Release(a core.Ammo) {
+	if d.ammos != nil {
+		// array form: the decoded ammo are kept and delivered again on every pass
+		return
+	}
 	if am, ok := a.(*ammo.Ammo); ok {
 		am.Reset()
 		d.pool.Put(am)
